@@ -787,6 +787,7 @@ Definition dec_pstep (s : sexp) : option pstep :=
   | Some (t, args) =>
       if String.eqb t "env" then option_map PEnv (dec_names args)
       else if String.eqb t "init" then Some PInit
+      else if String.eqb t "init-with" then option_map PInitWith (dec_names args)
       else if String.eqb t "op" then Some POp
       else None
   | None => None
